@@ -79,6 +79,19 @@ def catalogue():
     add({"c.py": "x = 1\n", "d": None}, ["do", CS(42, ["CC", "c.py", "y = 2\n", None], CS(43, ["MV", "c.py", "d/c.py", False], ["CC", "d/c.py", "", None]))],
         setup=[["do", CS(44, ["CC", "c.py", "", None])], ["undo"], ["redo"]], preview=1,
         name="previewed between set-up operations")
+    # edits of missing files and moves below missing folders, as first, middle and last child
+    add(dict(t_ab), ["do", CS(50, ["CC", "x", "C", None], ["CC", "a", "C", None], ["CR", "b", False])], name="edit of a missing file first")
+    add(dict(t_ab), ["do", CS(51, ["CC", "a", "C", None], ["CC", "d/x", "C", None], ["CC", "b", "C", None], ["CR", "b", False])],
+        name="edit of a missing file below a missing folder, in the middle")
+    add({"a": "A\n", "d": None}, ["do", CS(52, ["CC", "a", "C", None], CS(53, ["CC", "d/x", "", None]), ["CR", "a", False])],
+        name="edit of a missing file in an existing folder, nested, then a refusal")
+    add(dict(t_ab), ["do", CS(54, ["CC", "a", "C", None], ["CC", "x", "B\n", None])], name="edit of a missing file last")
+    add(dict(t_ab), ["do", CS(55, ["MV", "a", "d/x/a", False], ["CC", "b", "C", None], ["CR", "b", False])], name="move below missing folders first")
+    add(dict(t_ab), ["do", CS(56, ["CC", "b", "C", None], ["MV", "a", "x/a", False], ["CR", "d", True], ["CR", "b", False])],
+        name="move below a missing folder in the middle")
+    add(dict(t_ab), ["do", CS(57, ["CC", "b", "C", None], ["MV", "a", "d/a", False])], name="move below a missing folder last")
+    add({"a": "A\n"}, ["undo"], setup=[["do", CS(58, ["CR", "d", True], ["MV", "a", "d/a", False])], ["do", CS(59, ["MV", "d", "x", True])]],
+        name="undo after the folder of a moved file was renamed")
     # removal
     add(dict(t_ab), ["do", CS(8, ["RM", "a", False], ["CR", "b", False])], name="removal then refused creation")
     add(dict(t_ab), ["do", CS(9, ["CC", "a", "C", None], ["RM", "a", False])], name="removal last")
@@ -167,6 +180,21 @@ def join(parent, name):
 def gen_leaf(rng, sh):
     files = sorted(p for p, k in sh.items() if k == "f")
     dirs = [""] + sorted(p for p, k in sh.items() if k == "d")
+    q = rng.random()
+    if q < 0.06:
+        # an edit of a file that does not exist (refused by the code: nothing may be created)
+        parent = rng.choice(dirs)
+        free = [s for s in SEGS if join(parent, s) not in sh] or SEGS
+        return ["CC", join(parent, rng.choice(free)), rng.choice(CONTENTS), None]
+    if q < 0.12 and files:
+        # a file moved below folders that do not exist (refused: no stray folder may stay)
+        src = rng.choice(files)
+        parent = rng.choice(dirs)
+        free = [s for s in SEGS if join(parent, s) not in sh] or SEGS
+        dst = join(join(parent, rng.choice(free)), rng.choice(SEGS))
+        if rng.random() < 0.4:
+            dst = join(dst, rng.choice(SEGS))
+        return ["MV", src, dst, False]
     r = rng.random()
     if r < 0.34:
         p = rng.choice(files) if files and rng.random() < 0.9 else rand_path(rng)
@@ -307,7 +335,8 @@ def judge(r):
             return "skip:observer failure during rollback (double failure)", ""
         if r.unmodelled:
             return "skip:shutil copy fallback", ""
-        if r.py_irrev and not r.removed and not getattr(r, "preview_mutated", None):
+        if r.py_irrev and not r.removed and not getattr(r, "preview_mutated", None) \
+                and not getattr(r, "unexpected_irrev", False):
             return "skip:ill-formed change (occupied destination, stale or missing old contents, non-empty creation undone)", ""
         same_tree = r.post_tree == r.pre_tree
         same_lists = (len(r.post_undo_objs) == len(r.pre_undo_objs) and len(r.post_redo_objs) == len(r.pre_redo_objs)
